@@ -42,18 +42,22 @@ def h_entry_point(ctx, tier, seed):
     eng = ctx.eng; T = TIR(eng)
     mainnet = eng.choose(2, "network") == 1
     with_meta = eng.choose(3, "metadata entries")           # 0, 1, 2
-    with_red = eng.choose(2, "redeemer present") == 1
+    red_kind = eng.choose(4, "redeemer: none / on the mint / on a withdrawal / on a spent input")
+    with_red = red_kind != 0
     scripts = eng.choose(3, "witness scripts")                # 0 none, 1 plutus v3, 2 native
     with_signer = eng.choose(2, "signers") == 1
     with_ref = eng.choose(2, "reference inputs") == 1
     meta = [T.st("Metadata", key=T.num(674 + i), value=T.string("m%d" % i)) for i in range(with_meta)]
-    mints = [mint_block(T, policy(3), 5, T.num(9) if with_red else T.none())]
+    mints = [mint_block(T, policy(3), 5, T.num(9) if red_kind == 1 else T.none())]
     adhoc = []
+    if red_kind == 2:
+        adhoc.append(T.st("AdHocDirective", name=StrM("withdrawal", True), data=MapM("HashMap", [[StrM("credential", True), True, T.address([0xF0] + [7] * 28)], [StrM("amount", True), True, T.num(5)], [StrM("redeemer", True), True, T.num(9)]])))
+    inputs = [T.st("Input", name=StrM("locked", True), utxos=T.v("Expression", "UtxoRefs", VecM([utxo_ref(T, [4] * 32, 0)])), redeemer=T.num(9))] if red_kind == 3 else []
     if scripts == 1:
         adhoc.append(witness(T, "plutus_witness", 3, [1, 2, 3]))
     if scripts == 2:
         adhoc.append(witness(T, "native_witness", 0, [0x82, 0x00, 0x80]))
-    tx = mk_tx(T, outputs=[out(T)], metadata=meta, mints=mints, adhoc=adhoc,
+    tx = mk_tx(T, outputs=[out(T)], metadata=meta, mints=mints, adhoc=adhoc, inputs=inputs,
                signers=some(T.st("Signers", signers=VecM([T.bytes([5] * 28)]))) if with_signer else none(),
                references=[T.v("Expression", "UtxoRefs", VecM([utxo_ref(T, [9] * 32, 1)]))] if with_ref else [])
     pp = pparams(eng, mainnet)
@@ -224,7 +228,7 @@ def _h(name, fn, bounds, tier="quick", **kw):
 
 
 HARNESSES = [
-    _h("c10_entry_point", h_entry_point, "network x metadata entries {0,1,2} x redeemer {no,yes} x witness scripts {none, plutus v3, native} x signers x references (144 templates)", max_paths=100000),
+    _h("c10_entry_point", h_entry_point, "network x metadata entries {0,1,2} x redeemer {none, mint, withdrawal, spent input} x witness scripts {none, plutus v3, native} x signers x references (288 templates)", max_paths=100000),
     _h("c10_mint_cancel", h_mint_cancel, "mint x / burn y of one class, x, y symbolic in [1, 2^62); with/without a second asset under the policy"),
     _h("c10_witness_order", h_witness_order, "3 plutus v3 witness directives; hash-container iteration order: all", map_order="all"),
     _h("c10_compile_wiring", h_compile_wiring, "Compiler::compile on a constant template; extra_fees in {None, Some(0), Some(350000)}; payload length symbolic (< 2^32)"),
@@ -232,6 +236,9 @@ HARNESSES = [
 
 
 # ---- no duplicates in set-like fields ------------------------------------------------------
+
+_DUP_SEEN = {}
+
 
 def h_duplicates(ctx, tier, seed):
     """the same signer / reference / metadata label written twice does not produce a duplicate
@@ -263,6 +270,10 @@ def h_duplicates(ctx, tier, seed):
         while isinstance(inner, Agg):
             inner = models.deref(inner.fields[0])
         return [repr(models.deref(x)) for x in inner.items]
+    if which in (0, 1, 3):
+        f_ = {0: "required_signers", 1: "reference_inputs", 3: "collateral"}[which]
+        seen = _DUP_SEEN.setdefault((ctx.hname, which), items(f_))
+        ctx.require(items(f_) == seen, "%s does not depend on hash iteration order (compiling twice gives the same list)" % f_, shape="%s order depends on hash iteration order" % f_)
     if which == 0:
         got = items("required_signers")
         ctx.require(len(got) == len(set(got)), "a signer named twice appears once in required_signers (got %d entries)" % len(got), shape="duplicate required signer")
@@ -278,4 +289,4 @@ def h_duplicates(ctx, tier, seed):
         ctx.require(aux.variant == "Ok" and models.deref(aux.fields[0]).variant == "Some", "metadata is emitted")
 
 
-HARNESSES.append(_h("c10_duplicates", h_duplicates, "a signer, a reference input and a metadata label each written twice"))
+HARNESSES.append(_h("c10_duplicates", h_duplicates, "a signer, a reference input, a collateral input and a metadata label each written twice; every hash-container iteration order", map_order="all"))
